@@ -222,6 +222,14 @@ def depends_on(e: ast.AST, *templates: str, binds: dict | None = None) -> bool:
     return any(norm.contains(e, T(t), binds) for t in templates)
 
 
+def has_event(site: Site, label: str) -> bool:
+    return any(f.kind == "atom" and f.text == f"__event__({label!r})" for f in site.facts)
+
+
+def stmt_has_call(st: ast.stmt, *names: str) -> bool:
+    return any(isinstance(n, ast.Call) and callee_name(n) in names for n in ast.walk(st))
+
+
 def flow_of(repo: Repo, chk: Check, path: str, qual: str, **kw) -> tuple[Func, Flow]:
     f = repo.func(path, qual)
     chk.analysed(f.key)
